@@ -41,6 +41,25 @@ fn c12_color_hsla_cmp_antisymmetric() {
     assert!((a == b) == (b == a));
     assert!((a != b) == !(a == b));
 }
+/// C12: `==` between an hwb and an hsl color is symmetric and cmp is
+/// antisymmetric, whichever operand is on the left (mixed representations
+/// take a different path through Color::cmp for each order).
+#[kani::proof]
+#[kani::stub(crate::value::colors::hsla::deg_mod, crate::value::colors::hsla::kani_verif::deg_mod_by_contract)]
+fn c12_color_hwba_hsla_eq_symmetric() {
+    let a = Color::Hwba(any_hwba_valid());
+    let b = Color::Hsla(any_hsla_valid());
+    assert!((a == b) == (b == a), "hwb == hsl is symmetric");
+    assert!(a.cmp(&b) == b.cmp(&a).reverse(), "hwb cmp hsl is antisymmetric");
+}
+/// C12: same for an rgb and an hsl color.
+#[kani::proof]
+#[kani::stub(crate::value::colors::hsla::deg_mod, crate::value::colors::hsla::kani_verif::deg_mod_by_contract)]
+fn c12_color_rgba_hsla_eq_symmetric() {
+    let a = Color::Rgba(any_rgba_valid());
+    let b = Color::Hsla(any_hsla_valid());
+    assert!((a == b) == (b == a), "rgb == hsl is symmetric");
+}
 /// C12: every (non-NaN) color equals itself.
 #[kani::proof]
 #[kani::stub(crate::value::colors::hsla::deg_mod, crate::value::colors::hsla::kani_verif::deg_mod_by_contract)]
